@@ -104,6 +104,8 @@ RunOK(e) == LET x == e.expect IN
           [] x.kind = "apphttp" -> (F("coverage") => e.exit = 0 /\ ConnsHttpOK(e))
           [] x.kind = "apptime" -> (F("time") => TimeOK(e))
           [] x.kind = "live" -> (F("live") => LiveOK(e))
+          [] x.kind = "packetbusy" -> /\ (F("coverage") => e.exit = 0 /\ CoverageOK(e))       \* replies flood the wire: coverage and delay only
+                                      /\ (F("delay") => DelayOK(e))
           [] x.kind = "packet" -> /\ (F("coverage") => e.exit = 0 /\ CoverageOK(e))
                                   /\ (F("source") => SourceOK(e))
                                   /\ (F("delay") => DelayOK(e))
@@ -118,7 +120,7 @@ HighWater == TLCSet(1, IF l > TLCGet(1) THEN l ELSE TLCGet(1))
 ASSUME TLCSet(1, 0)
 Which(e) == LET x == e.expect IN
    IF ~Clean(e) THEN "not clean (panic / killed / incomplete output / capture drops)"
-   ELSE IF x.kind = "packet" THEN
+   ELSE IF x.kind \in {"packet", "packetbusy"} THEN
         (IF F("coverage") /\ (e.exit # 0 \/ ~CoverageOK(e)) THEN "coverage" ELSE IF F("source") /\ ~SourceOK(e) THEN "source" ELSE IF F("delay") /\ ~DelayOK(e) THEN "exit delay"
          ELSE IF F("reply") /\ ~ReplyOK(e) THEN "reply shape" ELSE IF F("errors") /\ x.nerr >= 0 /\ Len(e.stderr) # x.nerr THEN "errors on stderr" ELSE "rate")
    ELSE x.kind
